@@ -67,7 +67,8 @@ def run(key):
         return trivial('fit raises on this configuration: ' + type(e).__name__)
     f1 = M.fields(model, m1)
     w1 = M.weight_full(model, m1, shape)
-    rt = 1e-5 if model == 'cbmm' else (5e-4 if c['single'] else tol.ITER)
+    # 20 EM iterations amplify rounding (un-normalised covariances reach 1e3): one more decade
+    rt = 1e-5 if model == 'cbmm' else (5e-4 if c['single'] else tol.ITER * (10 if its > 5 else 1))
     n = 0
     for perm in perms_for(K, thorough):
         perm = list(perm)
